@@ -26,6 +26,7 @@ import (
 	"github.com/obolnetwork/charon/core/consensus/timer"
 	pbv1 "github.com/obolnetwork/charon/core/corepb/v1"
 	"github.com/obolnetwork/charon/core/qbft"
+	"github.com/obolnetwork/charon/zzverif/bsync"
 	"github.com/obolnetwork/charon/zzverif/enumx"
 )
 
@@ -52,7 +53,31 @@ type c04script struct {
 	// timeout (overrides Late when set) and per sender latency class 0 = delta, 1 = 3*delta, 2 = 0.3 * shortest round timeout
 	Late20 []int `json:"late_start_twentieths,omitempty"`
 	Lat    []int `json:"latency_class,omitempty"`
+	// production wiring of the round timer (core/consensus/qbft NewConsensus): timer_ctor "prod" = the timer is obtained from
+	// timer.GetRoundTimerFunc(genesis, slotDuration)(duty) under the feature flags below (Timer then names the type that
+	// the constructor is expected to yield); slot_aligned = genesis and slot duration are handed to the constructor (as
+	// NewConsensus does) so that round r of the eager double-linear timer ends at dutyStart + f(r) on the wall clock,
+	// whenever the member starts; false = zero genesis (the timer falls back to the member's own clock).
+	// cluster_start_ms_after_duty_start: the instant the first members start, relative to the duty's start
+	// (slot start + 1/3 slot for attester, 2/3 for aggregator duties, the scheduler's offsets).
+	TimerCtor      string `json:"timer_ctor,omitempty"`
+	FeatEDL        bool   `json:"feature_eager_double_linear,omitempty"`
+	FeatLinear     bool   `json:"feature_linear,omitempty"`
+	SlotAligned    bool   `json:"slot_aligned,omitempty"`
+	SlotDurMs      int    `json:"slot_duration_ms,omitempty"`
+	ClusterStartMs int    `json:"cluster_start_ms_after_duty_start,omitempty"`
+	// layer "" = one qbft.Run per member (this file); "component" = four real Consensus components (zz_verif_c04comp_test.go)
+	Layer string `json:"layer,omitempty"`
+	// per member start offset in milliseconds after the cluster's start (overrides Late/Late20 when > 0); may exceed a round
+	LateMs []int `json:"late_start_ms,omitempty"`
+	// order in which a select with several ready cases picks one (runtime overlay): 0 = source order, 1 = reverse order
+	SelOrder int `json:"select_order,omitempty"`
 }
+
+// c04roundCap: a member that has entered this many rounds without deciding is stopped by the harness (it is then judged as
+// "never decided": the horizon of 90 s would let it go on to round ~90; the cap keeps the receive buffers of the members
+// that have left, 100 messages each, from filling up).
+const c04roundCap = 64
 
 // c04lat returns the one-way latency of a sender.
 func c04lat(sc c04script, m int) time.Duration {
@@ -74,6 +99,9 @@ func c04lat(sc c04script, m int) time.Duration {
 }
 
 func c04lateOff(sc c04script, m int) time.Duration {
+	if len(sc.LateMs) > m && sc.LateMs[m] > 0 {
+		return time.Duration(sc.LateMs[m]) * time.Millisecond
+	}
 	if len(sc.Late20) > m && sc.Late20[m] > 0 {
 		return c04firstRound(sc) * time.Duration(sc.Late20[m]) / 20
 	}
@@ -101,7 +129,66 @@ func (c04dl) Add(core.Duty) core.DeadlineStatus { return core.DeadlineScheduled 
 func (c04dl) C() <-chan core.Duty               { return nil }
 
 func (s c04script) String() string {
-	return fmt.Sprintf("n=%d timer=%s/%v duty=%d/%d crashes=%v late=%v slow=%v lateinput=%v rot=%d", s.N, s.Timer, s.PropTO, s.DutyType, s.Slot, s.Crashes, s.Late, s.Slow, s.LateInput, s.MapRot)
+	out := fmt.Sprintf("n=%d timer=%s/%v duty=%d/%d", s.N, s.Timer, s.PropTO, s.DutyType, s.Slot)
+	if s.TimerCtor != "" {
+		out += fmt.Sprintf(" ctor=%s(linear=%v eager=%v aligned=%v slot=%dms) cluster_start=duty_start+%dms", s.TimerCtor, s.FeatLinear, s.FeatEDL, s.SlotAligned, s.SlotDurMs, s.ClusterStartMs)
+	}
+	out += fmt.Sprintf(" crashes=%v late=%v slow=%v lateinput=%v rot=%d", s.Crashes, s.Late, s.Slow, s.LateInput, s.MapRot)
+	if len(s.LateMs) > 0 {
+		out += fmt.Sprintf(" late_ms=%v", s.LateMs)
+	}
+	if len(s.Late20) > 0 || len(s.Lat) > 0 {
+		out += fmt.Sprintf(" late20=%v lat=%v", s.Late20, s.Lat)
+	}
+	return out
+}
+
+// c04timerLabel names the timer in signatures: "@slot" marks the slot-aligned production form.
+func c04timerLabel(sc c04script) string {
+	if sc.TimerCtor == "prod" && sc.SlotAligned && sc.Timer == "eager_dlinear" {
+		return sc.Timer + "@slot"
+	}
+	return sc.Timer
+}
+
+// c04dutyDelay: the scheduler's offset of a duty's start within its slot (core/scheduler: attester 1/3, aggregator and
+// sync contribution 2/3, everything else at the slot start) - written down here independently of the timer package.
+func c04dutyDelay(typ core.DutyType, slot time.Duration) time.Duration {
+	switch typ {
+	case core.DutyAttester:
+		return slot / 3
+	case core.DutyAggregator, core.DutySyncContribution:
+		return 2 * slot / 3
+	}
+	return 0
+}
+
+// c04genesis places the genesis so that the duty starts ClusterStartMs before t0 (the cluster's start).
+func c04genesis(sc c04script, t0 time.Time) time.Time {
+	slot := time.Duration(sc.SlotDurMs) * time.Millisecond
+	dutyStart := t0.Add(-time.Duration(sc.ClusterStartMs) * time.Millisecond)
+	return dutyStart.Add(-c04dutyDelay(core.DutyType(sc.DutyType), slot)).Add(-slot * time.Duration(sc.Slot))
+}
+
+// c04alignedExpired: the number of rounds whose first slot-aligned deadline (dutyStart + timeout(r)) has passed at an instant
+// given relative to the cluster's start.
+func c04alignedExpired(sc c04script, at time.Duration) (n int64) {
+	at += time.Duration(sc.ClusterStartMs) * time.Millisecond // since the duty's start
+	for k := int64(1); c04timeout(sc, k) <= at; k++ {
+		n++
+	}
+	return n
+}
+
+// c04clusterStartClass names the cluster's start relative to the first slot-aligned deadline (signatures).
+func c04clusterStartClass(sc c04script) string {
+	switch {
+	case sc.ClusterStartMs == 0:
+		return "on-time"
+	case time.Duration(sc.ClusterStartMs)*time.Millisecond < c04timeout(sc, 1):
+		return "within-first-round"
+	}
+	return "after-first-slot-deadline"
 }
 
 var c04keys []*k1.PrivateKey
@@ -121,6 +208,9 @@ type c04member struct {
 	cancel     context.CancelFunc
 	outer      chan Msg
 	started    bool
+	startedAt  time.Duration
+	capped     bool // stopped by the harness after c04roundCap rounds without a decision
+	timerType  string
 	crashed    bool
 	silent     bool
 	bcasts     int
@@ -242,7 +332,15 @@ func c04errClass(err error) string {
 	return strings.ReplaceAll(strings.TrimSpace(s), " ", "-")
 }
 
-func c04timer(sc c04script, duty core.Duty) timer.RoundTimer {
+func c04timer(sc c04script, duty core.Duty, t0 time.Time) timer.RoundTimer {
+	if sc.TimerCtor == "prod" {
+		// as NewConsensus: timerFunc = timer.GetRoundTimerFunc(genesisTime, slotDuration); runInstance: roundTimer = timerFunc(duty)
+		var genesis time.Time
+		if sc.SlotAligned {
+			genesis = c04genesis(sc, t0)
+		}
+		return timer.GetRoundTimerFunc(genesis, time.Duration(sc.SlotDurMs)*time.Millisecond)(duty)
+	}
 	switch sc.Timer {
 	case "inc":
 		return timer.NewIncreasingRoundTimerWithDuty(duty)
@@ -262,21 +360,29 @@ func c04firstRound(sc c04script) time.Duration {
 }
 
 type c04result struct {
-	members []*c04member
-	faultAt time.Duration
-	faultR  int64
-	horizon time.Duration
+	members     []*c04member
+	lockWaiters int // goroutines found waiting for a lock of the code under test at the end of the execution
+	faultAt     time.Duration
+	faultR      int64
+	horizon     time.Duration
 }
 
 func c04run(t *testing.T, sc c04script) (res c04result) {
 	runtime.VerifSetMapRot(true, uint64(sc.MapRot))
-	runtime.VerifSetSelMode(1)
+	runtime.VerifSetSelMode(uint32(1 + sc.SelOrder))
 	defer runtime.VerifSetMapRot(false, 0)
 	defer runtime.VerifSetSelMode(0)
-	if sc.PropTO {
-		featureset.EnableForT(t, featureset.ProposalTimeout)
-	} else {
-		featureset.DisableForT(t, featureset.ProposalTimeout)
+	feat := func(f featureset.Feature, on bool) {
+		if on {
+			featureset.EnableForT(t, f)
+		} else {
+			featureset.DisableForT(t, f)
+		}
+	}
+	feat(featureset.ProposalTimeout, sc.PropTO)
+	if sc.TimerCtor == "prod" {
+		feat(featureset.EagerDoubleLinear, sc.FeatEDL)
+		feat(featureset.Linear, sc.FeatLinear)
 	}
 	duty := core.Duty{Slot: sc.Slot, Type: core.DutyType(sc.DutyType)}
 	horizon := 90 * time.Second
@@ -319,8 +425,9 @@ func c04run(t *testing.T, sc c04script) (res c04result) {
 					}
 					net.fault()
 				}
-				m.started = true
-				rt := c04timer(sc, duty)
+				m.started, m.startedAt = true, time.Since(net.t0)
+				rt := c04timer(sc, duty, net.t0)
+				m.timerType = string(rt.Type())
 				valueCh := make(chan instance.ValueWithHash, 1)
 				hashCh := make(chan [32]byte, 1)
 				verifyCh := make(chan proto.Message, 1)
@@ -368,6 +475,10 @@ func c04run(t *testing.T, sc c04script) (res c04result) {
 				def.LogRoundChange = func(ctx context.Context, d core.Duty, process, round, newRound int64, rule qbft.UponRule, msgs []qbft.Msg[core.Duty, [32]byte, proto.Message]) {
 					origRC(ctx, d, process, round, newRound, rule, msgs)
 					m.round = newRound
+					if newRound > c04roundCap && !m.decided {
+						m.capped = true
+						m.cancel()
+					}
 				}
 				def.LogUnjust = func(_ context.Context, _ core.Duty, _ int64, msg qbft.Msg[core.Duty, [32]byte, proto.Message]) {
 					m.unjust = append(m.unjust, fmt.Sprintf("%v from member %d round %d", msg.Type(), msg.Source(), msg.Round()))
@@ -395,6 +506,14 @@ func c04run(t *testing.T, sc c04script) (res c04result) {
 		res.faultAt, res.faultR = net.lastFaultAt, net.lastFaultRnd
 		cancelAll()
 		synctest.Wait()
+		// a member whose goroutine waits for a lock that nobody will release (only a changed tree does that) cannot end: it has
+		// been judged as what it is - a member that did not decide -, now all locks are opened so that the bubble can be left
+		if bsync.Waiting() > 0 {
+			res.lockWaiters = bsync.Waiting()
+			bsync.Teardown()
+			defer bsync.Reset()
+			synctest.Wait()
+		}
 		for running > 0 {
 			<-done
 			running--
@@ -465,7 +584,59 @@ func c04check(sc c04script, r c04result) (sigs, descs []string) {
 			continue
 		}
 		if !m.decided {
-			bad("kind=running-member-never-decided", "member %d kept running but had not decided after %s (round %d)", m.idx, r.horizon, m.round)
+			// classification only (the verdict is the line above): did this member start after every other running member had
+			// decided and stopped its instance (as runInstance does on a decision)?
+			var (
+				lastOther    time.Duration
+				lastOtherRnd int64
+			)
+			others, left, gone := 0, 0, 0
+			var goneAt time.Duration
+			var goneRnd int64
+			for _, o := range r.members {
+				if o.idx == m.idx || crashed[o.idx] {
+					continue
+				}
+				others++
+				if o.decided && m.started && o.decidedAt < m.startedAt {
+					left++
+					lastOther = max(lastOther, o.decidedAt)
+					lastOtherRnd = max(lastOtherRnd, o.decidedRnd)
+				}
+				if o.decided && m.started && o.decidedAt >= m.startedAt {
+					gone++
+					goneAt = max(goneAt, o.decidedAt)
+					goneRnd = max(goneRnd, o.decidedRnd)
+				}
+			}
+			capped := ""
+			if m.capped {
+				capped = fmt.Sprintf(" (harness cap of %d rounds reached)", c04roundCap)
+			}
+			aligned := sc.TimerCtor == "prod" && sc.SlotAligned && sc.Timer == "eager_dlinear"
+			if others > 0 && left == others && !(aligned && c04alignedExpired(sc, m.startedAt) >= lastOtherRnd) {
+				// its timer of the round in which the others decided was still open when it started: everything it needs is in
+				// its receive buffer (this is not the situation of the known finding about the slot-aligned timer)
+				bad("kind=running-member-never-decided cause=the-others-had-decided-and-left-but-their-deciding-round-was-still-open-on-its-timer",
+					"member %d kept running but had not decided after %s (round %d); all other running members had decided by %s (round %d) and stopped their instances (as runInstance does); this member started its instance at %s, when its timer for round %d had not expired yet%s",
+					m.idx, r.horizon, m.round, lastOther, lastOtherRnd, m.startedAt, lastOtherRnd, capped)
+				continue
+			}
+			if others > 0 && left == others {
+				expired := c04alignedExpired(sc, m.startedAt)
+				bad("kind=running-member-never-decided cause=joined-after-the-others-decided-and-left cluster-start="+c04clusterStartClass(sc),
+					"member %d kept running but had not decided after %s (round %d); all other running members had decided by %s and stopped their instances (as runInstance does), this member started its instance at %s, when the slot-aligned deadlines of %d round(s) had already passed%s",
+					m.idx, r.horizon, m.round, lastOther, m.startedAt, expired, capped)
+				continue
+			}
+			if others > 0 && gone == others && m.round > goneRnd {
+				// classification only: it was running while the others decided, in a round it had already left, and they stopped
+				bad("kind=running-member-never-decided cause=the-others-decided-in-a-round-it-had-already-left-and-stopped",
+					"member %d kept running but had not decided after %s (round %d); it started at %s, all other running members decided by %s in round %d or earlier - a round this member had left - and stopped their instances (as runInstance does): nobody answers its ROUND-CHANGEs%s",
+					m.idx, r.horizon, m.round, m.startedAt, goneAt, goneRnd, capped)
+				continue
+			}
+			bad("kind=running-member-never-decided", "member %d kept running but had not decided after %s (round %d)%s", m.idx, r.horizon, m.round, capped)
 			continue
 		}
 		// one full leader rotation after the last fault
@@ -504,9 +675,16 @@ func c04subsets(n, k int) [][]int {
 }
 
 func TestVerifC04(t *testing.T) {
+	log.InitConsoleForT(t, c04log) // the console log is scanned for two lines by the component layer and otherwise discarded
 	r := enumx.New(t, "C04")
 	defer r.Finish()
-	judge := func(sc c04script) {
+	confirmed := map[string]bool{} // signatures confirmed (3 re-runs) and reported by this process: further cases are counted
+	var judge func(sc c04script)
+	judge = func(sc c04script) {
+		if sc.Layer == "component" {
+			c04compJudge(t, r, sc, confirmed)
+			return
+		}
 		res := c04run(t, sc)
 		sigs, descs := c04check(sc, res)
 		var rounds []string
@@ -523,11 +701,41 @@ func TestVerifC04(t *testing.T) {
 		r.Outcome(cls)
 		r.Steps(1)
 		r.Count("members_decided", ndec)
+		if res.lockWaiters > 0 {
+			r.Count("goroutines_left_waiting_for_a_lock_of_the_code_under_test", res.lockWaiters)
+		}
+		for _, m := range res.members {
+			if !m.started || c04lateOff(sc, m.idx) <= c04firstRound(sc) {
+				continue
+			}
+			if m.decided {
+				r.Count("members_started_beyond_one_round_decided", 1)
+			} else {
+				r.Count("members_started_beyond_one_round_never_decided", 1)
+			}
+			if m.capped {
+				r.Count("members_stopped_by_the_round_cap", 1)
+			}
+		}
+		for _, m := range res.members {
+			if sc.TimerCtor == "prod" && m.started && m.timerType != sc.Timer {
+				r.Note(fmt.Sprintf("harness: timer.GetRoundTimerFunc yielded %q where the script expects %q [%s]", m.timerType, sc.Timer, sc))
+			}
+		}
 		for i, sig := range sigs {
+			full := fmt.Sprintf("%s timer=%s n=%d", sig, c04timerLabel(sc), sc.N)
+			if confirmed[full] {
+				r.Violation(full, fmt.Sprintf("%s [script %s]", descs[i], sc), sc)
+				continue
+			}
 			ok := true
 			for k := 0; k < 3; k++ {
 				s2, _ := c04check(sc, c04run(t, sc))
-				if !strings.Contains(strings.Join(s2, "|"), sig) {
+				found := false
+				for _, x := range s2 {
+					found = found || x == sig
+				}
+				if !found {
 					ok = false
 				}
 			}
@@ -535,7 +743,8 @@ func TestVerifC04(t *testing.T) {
 				r.Unconfirmed(sig + " " + sc.String())
 				continue
 			}
-			r.Violation(fmt.Sprintf("%s timer=%s n=%d", sig, sc.Timer, sc.N), fmt.Sprintf("%s [script %s]", descs[i], sc), sc)
+			confirmed[full] = true
+			r.Violation(full, fmt.Sprintf("%s [script %s]", descs[i], sc), sc)
 		}
 	}
 	if r.ReplayPath != "" {
@@ -543,17 +752,27 @@ func TestVerifC04(t *testing.T) {
 		if err := r.ReplayCase(&sc); err != nil {
 			t.Fatal(err)
 		}
-		res := c04run(t, sc)
-		for _, m := range res.members {
-			fmt.Printf("member %d: started=%v crashed=%v decided=%v@%s round=%d val=%q unjust=%v err=%v\n", m.idx, m.started, m.crashed, m.decided, m.decidedAt, m.decidedRnd, m.decidedVal, m.unjust, m.runErr)
+		if sc.Layer != "component" {
+			res := c04run(t, sc)
+			for _, m := range res.members {
+				fmt.Printf("member %d: started=%v@%s crashed=%v decided=%v@%s round=%d (now %d) val=%q unjust=%v err=%v\n", m.idx, m.started, m.startedAt, m.crashed, m.decided, m.decidedAt, m.decidedRnd, m.round, m.decidedVal, m.unjust, m.runErr)
+			}
 		}
 		judge(sc)
+		return
+	}
+	// Part 0: the component layer (zz_verif_c04comp_test.go)
+	if !c04compPart(t, r, judge) {
 		return
 	}
 	th := enumx.Thorough()
 	ns := []int{4, 5, 6} // (6: the smallest size at which a quorum exists without the leader and one more member)
 	if th {
 		ns = []int{4, 5, 6, 7}
+	}
+	// the production timer constructor and start offsets beyond one round (qbft.Run layer), before the main family
+	if !c04prodFamily(r, th, ns, judge) {
+		return
 	}
 	timers := []string{"inc", "eager_dlinear", "linear"}
 	sampled := 0
@@ -565,17 +784,21 @@ func TestVerifC04(t *testing.T) {
 					continue
 				}
 				for slot := uint64(0); slot < uint64(n); slot++ { // every leader rotation
-					if !r.Mine() {
-						continue
-					}
+					// sharding: the unit's main scripts are one work unit, every crash option of its wide family is another one
+					// (every shard walks through the same enumeration; `active` says whether the current scripts are this shard's)
+					mine := r.Mine()
 					if r.Expired() {
 						return
 					}
+					active := mine
 					base := func() c04script {
 						return c04script{N: n, Timer: tm, PropTO: dt == int(core.DutyProposer), DutyType: dt, Slot: slot,
 							Late: make([]int, n), Slow: make([]bool, n), LateInput: make([]int, n)}
 					}
 					run := func(sc c04script) {
+						if !active {
+							return
+						}
 						judge(sc)
 						if sampled < 3 && len(sc.Crashes) > 0 {
 							sampled++
@@ -714,6 +937,9 @@ func TestVerifC04(t *testing.T) {
 							}
 						}
 						for _, co := range crashOpts {
+							if active = r.Mine(); !active {
+								continue
+							}
 							var rest []int
 							for m := 0; m < n; m++ {
 								if co == nil || co.Member != m {
@@ -756,6 +982,7 @@ func TestVerifC04(t *testing.T) {
 							}
 						}
 					}
+					active = mine
 					if th && n == 4 {
 						for rot := 1; rot <= 2; rot++ {
 							for at := 0; at <= 3; at++ {
@@ -772,4 +999,153 @@ func TestVerifC04(t *testing.T) {
 			}
 		}
 	}
+}
+
+// c04tcfg is one way of obtaining the round timer.
+type c04tcfg struct {
+	timer           string // the type the constructor yields
+	ctor            string // "" = the timer type's own constructor (relative clock); "prod" = timer.GetRoundTimerFunc
+	edl, linear, al bool   // features eager_double_linear / linear; slot aligned (genesis and slot duration given)
+	duty            core.DutyType
+	thOnly          bool
+}
+
+// c04prodFamily: the production timer constructor and start offsets beyond one round (qbft.Run layer).
+//
+// Units (n, way of obtaining the timer, duty type, slot = leader rotation):
+//   - the three timer types through their own constructors (relative clock), as in the main family;
+//   - timer.GetRoundTimerFunc(genesis, slotDuration)(duty), the constructor NewConsensus uses, under every combination of the
+//     features eager_double_linear / linear that selects a different branch: eager double-linear slot-aligned (the production
+//     default: attester, proposer, aggregator - the three duty-start offsets within a slot), eager double-linear with a zero
+//     genesis, linear (proposer under the linear feature), eager double-linear slot-aligned under the linear feature
+//     (attester), increasing (attester, with and without the linear feature).
+//
+// Per unit, for every cluster start in {duty start; + 500 ms, within the first round; + 1500 ms, after the first slot-aligned
+// deadline} (slot-aligned timers only; the relative timers do not know the duty's start): no fault; every member starting
+// 1.25 or 2.5 first-round timeouts after the others (beyond one round: the others have decided and left), n=4 also with every
+// single slow sender; through the production constructor also every member starting 1/4 or 3/4 of a round late and every crash
+// kind of every member (n>4 quick: of the first two members).
+func c04prodFamily(r *enumx.Run, th bool, ns []int, judge func(c04script)) bool {
+	att, prop, agg := core.DutyAttester, core.DutyProposer, core.DutyAggregator
+	cfgs := []c04tcfg{
+		{timer: "inc", duty: att}, {timer: "eager_dlinear", duty: att}, {timer: "eager_dlinear", duty: prop}, {timer: "linear", duty: att},
+		{timer: "inc", duty: prop, thOnly: true}, {timer: "linear", duty: prop, thOnly: true},
+		{timer: "eager_dlinear", ctor: "prod", edl: true, al: true, duty: att},
+		{timer: "eager_dlinear", ctor: "prod", edl: true, al: true, duty: prop},
+		{timer: "eager_dlinear", ctor: "prod", edl: true, al: true, duty: agg},
+		{timer: "eager_dlinear", ctor: "prod", edl: true, duty: att},
+		{timer: "linear", ctor: "prod", edl: true, linear: true, al: true, duty: prop},
+		{timer: "eager_dlinear", ctor: "prod", edl: true, linear: true, al: true, duty: att},
+		{timer: "inc", ctor: "prod", linear: true, al: true, duty: att},
+		{timer: "inc", ctor: "prod", al: true, duty: att},
+	}
+	for _, n := range ns {
+		f := (n - 1) / 3
+		for _, cfg := range cfgs {
+			if cfg.thOnly && !th {
+				continue
+			}
+			aligned := cfg.ctor == "prod" && cfg.al && cfg.timer == "eager_dlinear"
+			starts := []int{0}
+			if aligned {
+				starts = []int{0, 500, 1500}
+			}
+			for slot := uint64(0); slot < uint64(n); slot++ { // every leader rotation
+				for _, cs := range starts {
+					if !r.Mine() {
+						continue
+					}
+					if r.Expired() {
+						return false
+					}
+					base := func() c04script {
+						sc := c04script{N: n, Timer: cfg.timer, PropTO: cfg.duty == prop, DutyType: int(cfg.duty), Slot: slot,
+							Late: make([]int, n), Slow: make([]bool, n), LateInput: make([]int, n)}
+						if cfg.ctor == "prod" {
+							// ProposalTimeout is a stable (default-on) feature
+							sc.PropTO, sc.TimerCtor, sc.FeatEDL, sc.FeatLinear, sc.SlotAligned, sc.SlotDurMs, sc.ClusterStartMs = true, "prod", cfg.edl, cfg.linear, cfg.al, 12000, cs
+						}
+						return sc
+					}
+					run := func(sc c04script) {
+						if r.Expired() {
+							return
+						}
+						judge(sc)
+						if cfg.ctor == "prod" {
+							r.Count("prod_constructor_scripts", 1)
+						}
+						if aligned {
+							r.Count("prod_constructor_scripts_slot_aligned", 1)
+							if cs >= 1500 {
+								r.Count("prod_constructor_scripts_cluster_start_after_first_aligned_deadline", 1)
+							} else if cs > 0 {
+								r.Count("prod_constructor_scripts_cluster_start_within_first_round", 1)
+							}
+						}
+					}
+					if cfg.ctor == "prod" {
+						run(base())
+					}
+					// start offsets beyond one round
+					for m := 0; m < n; m++ {
+						for _, q := range []int{5, 10} {
+							sc := base()
+							sc.Late[m] = q
+							run(sc)
+							r.Count("scripts_with_a_start_offset_beyond_one_round", 1)
+							if n > 4 {
+								continue
+							}
+							for x := 0; x < n; x++ {
+								s2 := sc
+								s2.Slow = make([]bool, n)
+								s2.Slow[x] = true
+								run(s2)
+								r.Count("scripts_with_a_start_offset_beyond_one_round", 1)
+							}
+						}
+					}
+					if cfg.ctor != "prod" {
+						continue
+					}
+					for m := 0; m < n; m++ {
+						for _, q := range []int{1, 3} {
+							sc := base()
+							sc.Late[m] = q
+							run(sc)
+						}
+					}
+					maxAt := 4
+					if n > 4 {
+						maxAt = 3
+					}
+					for m := 0; m < n; m++ {
+						if n > 4 && !th && m >= 2 {
+							break
+						}
+						for at := 0; at <= maxAt; at++ {
+							for reach := 0; reach < 3; reach++ {
+								if at == 0 && reach > 0 {
+									continue
+								}
+								sc := base()
+								sc.Crashes = []c04crash{{m, at, reach}}
+								run(sc)
+								// f >= 2: a second member that joins beyond one round
+								if f >= 2 && reach == 1 {
+									s2 := sc
+									s2.Late = make([]int, n)
+									s2.Late[(m+1)%n] = 5
+									run(s2)
+									r.Count("scripts_with_a_start_offset_beyond_one_round", 1)
+								}
+							}
+						}
+					}
+				}
+			}
+		}
+	}
+	return !r.Expired()
 }
